@@ -925,6 +925,26 @@ class Interp:
             raise
 
     def e_Tuple(self, e, env):
+        from .values import SymTuple
+
+        if any(isinstance(x, ast.Starred) for x in e.elts):
+            parts, symbolic = [], False
+            for x in e.elts:
+                if isinstance(x, ast.Starred):
+                    v = self.eval(x.value, env)
+                    if isinstance(v, SymTuple):
+                        symbolic = True
+                        parts.append(v)
+                    else:
+                        parts.append(tuple(self.iterate(v)))
+                else:
+                    parts.append((self.eval(x, env),))
+            if symbolic:
+                acc = SymTuple.of(())
+                for p in parts:
+                    acc = acc + p
+                return acc
+            return tuple(v for p in parts for v in p)
         return tuple(self._elts(e.elts, env))
 
     def e_List(self, e, env):
@@ -1192,7 +1212,9 @@ class Interp:
         def b_range(*a):
             if any(isinstance(x, V.SV) for x in a):
                 if len(a) == 1:
-                    return V.SymSeq(a[0], lambda k: V.SV(k) if not isinstance(k, V.SV) else k, elem="int")
+                    r = V.SymSeq(a[0], lambda k: V.SV(k) if not isinstance(k, V.SV) else k, elem="int")
+                    r.as_range = V.SymRange(a[0])
+                    return r
                 raise Untranslatable("symbolic range with start/step")
             return range(*a)
 
